@@ -6,6 +6,7 @@ import (
 	"reflect"
 	"sort"
 	"strings"
+	"unicode/utf8"
 
 	"github.com/alttpo/snes/asm"
 
@@ -134,7 +135,13 @@ func init() {
 	}
 }
 
-func labelName(i int64) string { return fmt.Sprintf("lbl_%02d", i) }
+// labelName: every fourth label carries non-ASCII (multi-byte UTF-8) characters.
+func labelName(i int64) string {
+	if i%4 == 3 {
+		return fmt.Sprintf("l\u00e4bel\u2192%02d", i)
+	}
+	return fmt.Sprintf("lbl_%02d", i)
+}
 
 // ---------------------------------------------------------------------------------------
 // Real emitter wrapper: applies an op by reflection, recovering library panics.
@@ -588,6 +595,25 @@ func genComment(r *sim.Rand) sim.Op {
 	b := make([]byte, n)
 	for i := range b {
 		b[i] = commentAlphabet[r.Intn(len(commentAlphabet))]
+	}
+	if n >= 4 && r.Chance(1, 8) {
+		// non-ASCII text (valid multi-byte UTF-8, so that replay files reproduce it exactly)
+		extra := []string{"\u00e9", "\u2192", "\u6f22", "\u00df", "\U0001F600"}
+		for k := 0; k < 1+r.Intn(3); k++ {
+			x := extra[r.Intn(len(extra))]
+			if at := r.Intn(n - len(x) + 1); at >= 0 && len(x) <= n {
+				copy(b[at:], x)
+			}
+		}
+		if !utf8.Valid(b) {
+			// an overwritten sequence was cut: fall back to one clean character
+			for i := range b {
+				if b[i] >= 0x80 {
+					b[i] = '~'
+				}
+			}
+			copy(b, "\u00e9")
+		}
 	}
 	// a comment must not look like the address line of a data block ("; $7e2000" / "; 0x7e2000")
 	if n >= 2 && b[0] == '0' && (b[1] == 'x' || b[1] == 'X') {
